@@ -185,6 +185,12 @@ def case_missing(case):
                     fd = f.copy()
                     fd[m] = -999.0
                     variants["no_data"] = dict(field=fd, kw={"no_data": -999.0})
+                    for marker in (np.inf, -np.inf, 0.0):
+                        if np.any(np.isclose(f[keep], marker)):
+                            continue
+                        fd = f.copy()
+                        fd[m] = marker
+                        variants["no_data=%r" % marker] = dict(field=fd, kw={"no_data": marker})
                     if k == 2:
                         m1, m2 = np.zeros(n, dtype=bool), np.zeros(n, dtype=bool)
                         m1[rem[0]], m2[rem[1]] = True, True
@@ -397,6 +403,22 @@ def case_preproc(case):
     r.close("fit_normalizer: fitted parameter == Normalizer.fit on the data", out[2].lmbda, n2.lmbda, rtol=1e-8, dim=dim)
     g0, c0 = _est(pos, n2.normalize(f), edges)
     r.close("fit_normalizer: estimate uses the fitted normalizer", out[1], g0, rtol=1e-8, atol=1e-10, dim=dim)
+    # normalizers given as classes: every call builds its own instance (history: fit on one data set, then
+    # the same class for other data, with and without fitting)
+    fb = (f[::-1] * 1.7 + 0.3).copy()
+    for ncls in (gs.normalizer.BoxCox, gs.normalizer.YeoJohnson, gs.normalizer.Modulus):
+        o1 = gs.vario_estimate(pos, f.copy(), edges, normalizer=ncls, fit_normalizer=True)
+        ref = ncls()
+        ref.fit(f)
+        for k, v in ref.default_parameter.items():
+            r.close("class normalizer + fit_normalizer: fitted parameter == Normalizer.fit on the data", getattr(o1[2], k), getattr(ref, k), rtol=1e-8, norm=ncls.__name__, dim=dim)
+        g, c = _est(pos, fb.copy(), edges, normalizer=ncls)
+        g0, c0 = _est(pos, ncls().normalize(fb), edges)
+        r.true("class normalizer after an earlier fitted call == estimate with a default instance", np.array_equal(c, c0) and np.allclose(g, g0, rtol=1e-10, atol=1e-12), info={"g": np.asarray(g).tolist(), "g0": np.asarray(g0).tolist()}, norm=ncls.__name__, dim=dim)
+        o2 = gs.vario_estimate(pos, fb.copy(), edges, normalizer=ncls, fit_normalizer=True)
+        r.true("two fitted calls return independent normalizers", o2[2] is not o1[2], norm=ncls.__name__, dim=dim)
+        for k in ref.default_parameter:
+            r.close("normalizer returned by the first call unchanged by the second", getattr(o1[2], k), getattr(ref, k), rtol=1e-8, norm=ncls.__name__, dim=dim)
     return r.done(outcome=[dim] + idx)
 
 
